@@ -23,11 +23,11 @@ static const cfg_t cfgs[] = {
     { "RANDWS pop_wait, 1 push", 1, ABT_POOL_RANDWS, M_POPWAIT, 1 },
     { "BASIC_WAIT sched on FIFO_WAIT, 1 unit pushed by X", 1, ABT_POOL_FIFO_WAIT,
       M_SCHED, 1 },
-    { "FIFO pop_timedwait, 1 push", 0, ABT_POOL_FIFO, M_POPTIMED, 1 },
+    { "FIFO pop_timedwait, 1 push", 1, ABT_POOL_FIFO, M_POPTIMED, 1 },
     { "FIFO pop_timedwait, no push", 0, ABT_POOL_FIFO, M_POPTIMED, 0 },
     { "FIFO_WAIT pop_timedwait, no push", 0, ABT_POOL_FIFO_WAIT, M_POPTIMED, 0 },
     { "RANDWS pop_wait, no push", 0, ABT_POOL_RANDWS, M_POPWAIT, 0 },
-    { "RANDWS pop_timedwait, 1 push", 0, ABT_POOL_RANDWS, M_POPTIMED, 1 },
+    { "RANDWS pop_timedwait, 1 push", 1, ABT_POOL_RANDWS, M_POPTIMED, 1 },
     { "BASIC_WAIT sched on FIFO (polling pop_wait), 1 unit pushed by X", 0,
       ABT_POOL_FIFO, M_SCHED, 1 },
 };
